@@ -380,3 +380,20 @@ Theorem C18_affinity_any_iterable : forall k pid p sh items,
   /\ (oneshot sh = true -> run_req pid (AffinityIt sh []) k = (Exc ValueError, k)).
 Proof. exact affinity_any_iterable. Qed.
 Print Assumptions C18_affinity_any_iterable.
+
+(* FORK: a handle names its process by its pid field only.  The kernel resolves pid 0 to the
+   calling process; psutil passes [h_pid] (never 0), so the get and set forms through a handle do
+   not depend on who calls -- e.g. a forked child using the handle its parent created for itself
+   reads and changes the PARENT.  [hcall_as caller] = the call as issued by process [caller].
+   (Example fork_shortcut_refuted in C18/ProofsHandle.v: an "I am my own process" shortcut would
+   read and change the child.) *)
+Theorem C18_caller_irrelevant : forall c1 c2 h occ r k, h_pid h <> 0 ->
+  hcall_as c1 h occ r k = hcall_as c2 h occ r k.
+Proof. exact caller_irrelevant. Qed.
+Print Assumptions C18_caller_irrelevant.
+
+Theorem C18_hcall_as_is_hcall : forall c h occ r k, h_pid h <> 0 ->
+  fst (fst (fst (hcall_as c h occ r k))) = fst (fst (fst (hcall h occ r k)))
+  /\ snd (fst (fst (hcall_as c h occ r k))) = snd (fst (fst (hcall h occ r k))).
+Proof. exact hcall_as_is_hcall. Qed.
+Print Assumptions C18_hcall_as_is_hcall.
